@@ -295,10 +295,15 @@ impl<A: Algebra> Live<A> {
                 // every fifth search has a re-entrant predicate: while it is being evaluated it runs a search of its own on
                 // another tree of the same type (lawful: the predicate is an arbitrary caller-supplied closure)
                 let aux = self.aux_tree(*l);
+                let budget = 64 * (usize::BITS - self.shadow.len().leading_zeros()) as usize + 128;
                 let got = lib!(self.tree.lower_bound(*l, |it: &A::Item| {
                     let o = A::observe(it);
                     let r = A::eval(p, &o);
                     args.borrow_mut().push(o);
+                    if args.borrow().len() > budget {
+                        // a logical step bound, not a clock: a search looks at O(log n) aggregates
+                        panic!("lower_bound does not terminate: the predicate was called more than {} times on a tree of {} elements", budget, self.shadow.len());
+                    }
                     if let Some(a) = &aux {
                         let mut a = a.borrow_mut();
                         let k = a.1;
@@ -345,10 +350,14 @@ impl<A: Algebra> Live<A> {
                 let want = self.scan_rev(*r, p);
                 let args: RefCell<Vec<A::Obs>> = RefCell::new(Vec::new());
                 let aux = self.aux_tree(*r);
+                let budget = 64 * (usize::BITS - self.shadow.len().leading_zeros()) as usize + 128;
                 let got = lib!(self.tree.lower_bound_rev(*r, |it: &A::Item| {
                     let o = A::observe(it);
                     let res = A::eval(p, &o);
                     args.borrow_mut().push(o);
+                    if args.borrow().len() > budget {
+                        panic!("lower_bound_rev does not terminate: the predicate was called more than {} times on a tree of {} elements", budget, self.shadow.len());
+                    }
                     if let Some(a) = &aux {
                         let mut a = a.borrow_mut();
                         let k = a.1;
